@@ -168,7 +168,7 @@ def db_getattr(I, obj, cls_attr_owner, name, a):
         v = I.getattr(orig, name)
         obj.fields[name] = list(v) if isinstance(v, list) else v
         return obj.fields[name]
-    if obj.meta.get('attached') is False and not obj.meta.get('added'):
+    if obj.meta.get('attached') is False and not obj.meta.get('added') and not obj.meta.get('havocked'):
         # a freshly constructed (transient) mapped object: unset columns read as None / empty
         if name in ('names', '_names', 'object_groups', 'app_specific_info'):
             obj.fields[name] = []
@@ -179,6 +179,8 @@ def db_getattr(I, obj, cls_attr_owner, name, a):
     if kind is None:
         raise OutOfFragment("stored-object attribute %s.%s has no column model" % (obj.cls.__name__, name))
     from .modular import make_symbolic
+    if obj.meta.get('havocked') and not (isinstance(kind, tuple) and kind[0] in ('opt', 'lazyopt', 'list', 'slist')):
+        kind = ('opt', kind)        # a transient object: any column may still be unset
     if isinstance(kind, tuple) and kind[0] == 'tainted_bytes':
         v = SSeq('bytes', [('s', fresh("%s.%s" % (obj.label, name), IntSeq))], frozenset([kind[1]]))
     else:
@@ -221,10 +223,29 @@ class DbQuery(object):
                 # `column == NULL` never matches a row (identifiers are a non-null primary key)
                 P.event('db.one', 'none')
                 raise _pyvc().Raised(ExcVal(exc.NoResultFound, ("No row was found",)))
-        k = P.choose(3, "query.one")
+        # a look-up by the primary key (unique_identifier) of the base table cannot find two rows
+        by_key = any(isinstance(cnd, Obj) and cnd.cls is SqlCond and cnd.fields.get('op') == 'Eq' and
+                     any(getattr(cnd.fields.get(side), 'key', None) == 'unique_identifier' for side in ('left', 'right'))
+                     for cnd in q.fields.get('conds', []))
+        if by_key:
+            I.path.session.assumptions.add("a query by unique_identifier (primary key) finds at most one row")
+        k = P.choose(2 if by_key else 3, "query.one")
         if k == 1:
             P.event('db.one', 'none')
             raise _pyvc().Raised(ExcVal(exc.NoResultFound, ("No row was found",)))
+        if k == 2:
+            P.event('db.one', 'multiple')
+            raise _pyvc().Raised(ExcVal(exc.MultipleResultsFound, ("Multiple rows were found",)))
+        return _row(I, q)
+
+    @model
+    def one_or_none(I, args, kw):
+        q = args[0]
+        P = I.path
+        exc = importlib.import_module("sqlalchemy.orm.exc")
+        k = P.choose(3, "query.one_or_none")
+        if k == 1:
+            return None
         if k == 2:
             P.event('db.one', 'multiple')
             raise _pyvc().Raised(ExcVal(exc.MultipleResultsFound, ("Multiple rows were found",)))
